@@ -23,120 +23,172 @@ func c16Channels(kind, name string, ch string) string {
 	return ch
 }
 
+// the encoding name of a mime type: without its media type, whatever its letter case
+func c16Name(mime string) string {
+	for _, prefix := range []string{"audio/", "video/"} {
+		if len(mime) >= len(prefix) && strings.EqualFold(mime[:len(prefix)], prefix) {
+			return mime[len(prefix):]
+		}
+	}
+	return mime
+}
+
 func c16Run(c pcCase) (V, Verdict) {
 	r := pcRun(c)
 	obs := pcObs(c, r)
 	if r.Setup != "" {
 		return VL{VS("setup"), VS(r.Setup)}, Fail("harness-setup", r.Setup)
 	}
-	if r.Outcome != "ok" {
-		return obs, Pass(strings.SplitN(r.Outcome, ":", 2)[0]+"-error", false)
-	}
-	if len(r.Sections) != len(c.Remote) {
-		return obs, Fail("answer-section-count", fmt.Sprintf("%d offered sections, %d answered", len(c.Remote), len(r.Sections)))
-	}
 	v := Pass("", false)
-	listed, fromRemote, withPrefs := 0, 0, 0
-	for i, s := range r.Sections {
-		if s.Rejected {
-			continue
+	listed, fromRemote, withPrefs, bound := 0, 0, 0, 0
+	last := "ok"
+	for k := range r.Exchanges {
+		ex := &r.Exchanges[k]
+		last = ex.Outcome
+		if ex.Outcome != "ok" {
+			break
 		}
-		off := c.Remote[i]
-		for _, g := range pcGroups(s) {
-			listed++
-			pt, _ := strconv.Atoi(g.PT)
-			// answered rtpmap: "<pt> <name>/<clock>[/<channels>]"
-			f := strings.SplitN(g.Lines[0].Val, " ", 2)
-			parts := strings.Split(f[1], "/")
-			ach := ""
-			if len(parts) > 2 {
-				ach = parts[2]
+		if len(ex.Sections) != len(ex.Offer) {
+			return obs, Fail("answer-section-count", fmt.Sprintf("exchange %d: %d offered sections, %d answered", k, len(ex.Offer), len(ex.Sections)))
+		}
+		for i, s := range ex.Sections {
+			if s.Rejected {
+				continue
 			}
-			var hit *rcodec
-			for k := range off.Codecs {
-				if int(off.Codecs[k].PT) == pt {
-					hit = &off.Codecs[k]
+			if sig, what := c16CheckSection(r, k, i, s, &listed); sig != "" && v.OK {
+				v = Fail(sig, fmt.Sprintf("exchange %d: %s", k, what))
+			}
+			if ex.Local[i] < 0 {
+				fromRemote++
+			} else if len(r.Added[ex.Local[i]].Prefs) > 0 {
+				withPrefs++
+			}
+			// the section's transceiver had its mid before this offer arrived
+			for j := 0; j < k; j++ {
+				if i < len(r.Exchanges[j].Trans) && r.Exchanges[j].Trans[i] == ex.Trans[i] {
+					bound++
 					break
 				}
 			}
-			same := hit != nil && strings.EqualFold(hit.Name, parts[0]) && len(parts) > 1 &&
-				strconv.Itoa(int(hit.Clock)) == parts[1] &&
-				c16Channels(off.Kind, hit.Name, strconv.Itoa(int(hit.Ch))) == c16Channels(off.Kind, parts[0], ach)
-			if same || !v.OK {
-				continue
-			}
-			what := fmt.Sprintf("section %d answers %q; offered there: %v", i, g.Lines[0].Val, off.Codecs)
-			// cause
-			sig := "answer-codec-not-offered-in-section"
-			if a := r.Assoc[i]; a >= 0 && len(c.Locals[a].Prefs) > 0 {
-				// getCodecs emits the preference entry itself: find the one that renders to this rtpmap
-				for _, p := range c.Locals[a].Prefs {
-					name := strings.TrimPrefix(strings.TrimPrefix(p.Mime, "audio/"), "video/")
-					want := fmt.Sprintf("%s/%d", name, p.Clock)
-					if p.Ch > 0 {
-						want += fmt.Sprintf("/%d", p.Ch)
-					}
-					if want != f[1] {
-						continue
-					}
-					switch {
-					case p.PT != 0 && int(p.PT) == pt && (hit == nil || !strings.EqualFold(off.Kind+"/"+hit.Name, p.Mime)):
-						sig = "codec-preference-pt-kept-over-negotiated"
-					case hit != nil && strings.EqualFold(off.Kind+"/"+hit.Name, p.Mime) && name != strings.SplitN(p.Mime, "/", 2)[len(strings.SplitN(p.Mime, "/", 2))-1]:
-						sig = "mime-prefix-trim-case-sensitive"
-					case hit != nil && strings.EqualFold(off.Kind+"/"+hit.Name, p.Mime):
-						sig = "codec-preference-clock-channels-kept-over-negotiated"
-					}
-				}
-			}
-			if sig == "answer-codec-not-offered-in-section" && hit != nil && strings.Contains(f[1], "/") &&
-				strings.EqualFold(off.Kind+"/"+hit.Name+"/"+strconv.Itoa(int(hit.Clock)), strings.Join(parts[:min(3, len(parts))], "/")) {
-				// a registered mime type carries its "video/" or "audio/" prefix in another
-				// letter case, and addTransceiverSDP strips it case-sensitively
-				sig = "mime-prefix-trim-case-sensitive"
-			}
-			if sig == "answer-codec-not-offered-in-section" && hit != nil {
-				// the description answered under this payload type is that of another
-				// codec of the same section: matching for H264/VP9/AV1 looks at the fmtp
-				// line only, so two offered entries differing in clock rate / channels
-				// are "the same codec" and the first one's payload type is used
-				for _, oc := range off.Codecs {
-					tail := fmt.Sprintf("%s/%d", oc.Name, oc.Clock)
-					if oc.Ch > 0 {
-						tail += fmt.Sprintf("/%d", oc.Ch)
-					}
-					if int(oc.PT) != pt && tail == f[1] && strings.EqualFold(oc.Name, hit.Name) {
-						sig = "answer-pt-of-fmtp-equivalent-offered-codec"
-					}
-				}
-			}
-			if sig == "answer-codec-not-offered-in-section" {
-				// offered by another section of the same kind in this offer?
-				for j, o := range c.Remote {
-					if j == i || o.Kind != off.Kind {
-						continue
-					}
-					for _, oc := range o.Codecs {
-						if int(oc.PT) == pt && (strings.EqualFold(oc.Name, parts[0]) ||
-							(len(parts) > 1 && strings.EqualFold(o.Kind+"/"+oc.Name, parts[0]+"/"+parts[1]))) {
-							sig = "answer-codec-from-other-section-of-kind"
-						}
-					}
-				}
-			}
-			v = Fail(sig, what)
-		}
-		if r.Assoc[i] < 0 {
-			fromRemote++
-		} else if len(c.Locals[r.Assoc[i]].Prefs) > 0 {
-			withPrefs++
 		}
 	}
-	if v.OK {
-		v.NonTrivial = listed > 0
-		v.Class = fmt.Sprintf("secs%d/fromRemote%d/prefs%d/listed%d", len(r.Sections), fromRemote, withPrefs, min(listed, 6)/2*2)
+	if !v.OK {
+		return obs, v
 	}
+	if last != "ok" {
+		v.Class = strings.SplitN(last, ":", 2)[0] + "-error"
+		return obs, v
+	}
+	v.NonTrivial = listed > 0
+	v.Class = fmt.Sprintf("rounds%d/fromRemote%d/prefs%d/bound%d/listed<=%d", len(r.Exchanges), min(fromRemote, 3), min(withPrefs, 3), min(bound, 3), (min(listed, 8)+3)/4*4)
 	return obs, v
+}
+
+// every codec group of answer section i of exchange k against offer section i
+func c16CheckSection(r pcResult, k, i int, s pcSection, listed *int) (string, string) {
+	ex := &r.Exchanges[k]
+	off := ex.Offer[i]
+	for _, g := range pcGroups(s) {
+		*listed++
+		pt, _ := strconv.Atoi(g.PT)
+		// answered rtpmap: "<pt> <name>/<clock>[/<channels>]"
+		f := strings.SplitN(g.Lines[0].Val, " ", 2)
+		parts := strings.Split(f[1], "/")
+		ach := ""
+		if len(parts) > 2 {
+			ach = parts[2]
+		}
+		var hit *rcodec
+		for j := range off.Codecs {
+			if int(off.Codecs[j].PT) == pt {
+				hit = &off.Codecs[j]
+				break
+			}
+		}
+		same := hit != nil && strings.EqualFold(hit.Name, parts[0]) && len(parts) > 1 &&
+			strconv.Itoa(int(hit.Clock)) == parts[1] &&
+			c16Channels(off.Kind, hit.Name, strconv.Itoa(int(hit.Ch))) == c16Channels(off.Kind, parts[0], ach)
+		if same {
+			continue
+		}
+		what := fmt.Sprintf("section %d answers %q; offered there: %v", i, g.Lines[0].Val, off.Codecs)
+		// cause
+		sig := "answer-codec-not-offered-in-section"
+		if a := ex.Local[i]; a >= 0 && len(r.Added[a].Prefs) > 0 {
+			// getCodecs emits the preference entry itself: find the one that renders to this rtpmap
+			for _, p := range r.Added[a].Prefs {
+				name := c16Name(p.Mime)
+				want := fmt.Sprintf("%s/%d", name, p.Clock)
+				if p.Ch > 0 {
+					want += fmt.Sprintf("/%d", p.Ch)
+				}
+				if want != f[1] {
+					continue
+				}
+				switch {
+				case p.PT != 0 && int(p.PT) == pt && (hit == nil || !strings.EqualFold(off.Kind+"/"+hit.Name, p.Mime)):
+					sig = "codec-preference-pt-kept-over-negotiated"
+				case hit != nil && strings.EqualFold(off.Kind+"/"+hit.Name, p.Mime):
+					sig = "codec-preference-clock-channels-kept-over-negotiated"
+				}
+			}
+		}
+		if sig == "answer-codec-not-offered-in-section" && hit != nil && strings.Contains(f[1], "/") &&
+			strings.EqualFold(off.Kind+"/"+hit.Name+"/"+strconv.Itoa(int(hit.Clock)), strings.Join(parts[:min(3, len(parts))], "/")) {
+			// a registered mime type carries its "video/" or "audio/" prefix in another
+			// letter case, and addTransceiverSDP strips it case-sensitively
+			sig = "mime-prefix-trim-case-sensitive"
+		}
+		if sig == "answer-codec-not-offered-in-section" && hit != nil {
+			// the description answered under this payload type is that of another
+			// codec of the same section: matching for H264/VP9/AV1 looks at the fmtp
+			// line only, so two offered entries differing in clock rate / channels
+			// are "the same codec" and the first one's payload type is used
+			for _, oc := range off.Codecs {
+				tail := fmt.Sprintf("%s/%d", oc.Name, oc.Clock)
+				if oc.Ch > 0 {
+					tail += fmt.Sprintf("/%d", oc.Ch)
+				}
+				if int(oc.PT) != pt && tail == f[1] && strings.EqualFold(oc.Name, hit.Name) {
+					sig = "answer-pt-of-fmtp-equivalent-offered-codec"
+				}
+			}
+		}
+		offeredIn := func(o rsec) bool {
+			if o.Kind != off.Kind {
+				return false
+			}
+			for _, oc := range o.Codecs {
+				if int(oc.PT) == pt && (strings.EqualFold(oc.Name, parts[0]) ||
+					(len(parts) > 1 && strings.EqualFold(o.Kind+"/"+oc.Name, parts[0]+"/"+parts[1]))) {
+					return true
+				}
+			}
+			return false
+		}
+		if sig == "answer-codec-not-offered-in-section" {
+			// offered by another section of the same kind in this offer?
+			for j, o := range ex.Offer {
+				if j != i && offeredIn(o) {
+					sig = "answer-codec-from-other-section-of-kind"
+				}
+			}
+		}
+		if sig == "answer-codec-not-offered-in-section" {
+			// offered (under this payload type) by an earlier description only: the
+			// negotiated lists only grow, and a transceiver created from an earlier
+			// offer keeps the preference list computed then
+			for j := 0; j < k; j++ {
+				for _, o := range r.Exchanges[j].Offer {
+					if offeredIn(o) {
+						sig = "answer-codec-from-earlier-description"
+					}
+				}
+			}
+		}
+		return sig, what
+	}
+	return "", ""
 }
 
 func init() {
@@ -156,6 +208,22 @@ func init() {
 				{Video: []cdc{vp8}, Multi: true, Answer: true,
 					Locals: []pcTrans{{Kind: 2, Dir: 1, Prefs: []cdc{{Mime: "video/VP8", Clock: 90000, PT: 0}}}},
 					Remote: []rsec{{Kind: "video", Codecs: []rcodec{{Name: "VP8", Clock: 90000, PT: 100}}}}},
+				// repaired (fix: addTransceiverSDP strips the media type of a mime type ignoring
+				// case): a codec registered as "vidEO/AV1" used to be answered as rtpmap "vidEO/AV1/90000"
+				{Video: []cdc{{Mime: "vidEO/AV1", Clock: 90000, PT: 45}}, Multi: true, Answer: true,
+					Remote: []rsec{{Kind: "video", Codecs: []rcodec{{Name: "AV1", Clock: 90000, PT: 45}}}}},
+				// an earlier offer's codec answered after a re-offer that no longer lists it
+				// (finding answer-codec-from-earlier-description)
+				{Video: []cdc{vp8, {Mime: "video/VP9", Clock: 90000, Line: "profile-id=0", PT: 98}}, Multi: true, Answer: true,
+					Pre:    []pcRound{{Remote: []rsec{{Kind: "video", Dir: 3, Codecs: []rcodec{{Name: "VP8", Clock: 90000, PT: 100}, {Name: "VP9", Clock: 90000, Line: "profile-id=0", PT: 101}}}}}},
+					Remote: []rsec{{Kind: "video", Dir: 3, Codecs: []rcodec{{Name: "VP9", Clock: 90000, Line: "profile-id=0", PT: 101}}}}},
+				// outside c16_same_codec_partial's guard (c16_same_codec_refuted): H264 offered with
+				// one fmtp line under 100 (clock rate 90000) and 101 (48000); the 48000 entry is
+				// answered under 100 (finding answer-pt-of-fmtp-equivalent-offered-codec)
+				{Video: []cdc{{Mime: "video/H264", Clock: 90000, Line: "packetization-mode=1;profile-level-id=42e01f", PT: 102}}, Multi: true, Answer: true,
+					Remote: []rsec{{Kind: "video", Codecs: []rcodec{
+						{Name: "H264", Clock: 90000, Line: "packetization-mode=1;profile-level-id=42e01f", PT: 100},
+						{Name: "H264", Clock: 48000, Line: "packetization-mode=1;profile-level-id=42e01f", PT: 101}}}}},
 				// transceiver created from the remote description, RTX remapped
 				{Video: []cdc{vp8, {Mime: "video/rtx", Clock: 90000, Line: "apt=96", PT: 97}}, Multi: true, Answer: true,
 					Remote: []rsec{{Kind: "video", Codecs: []rcodec{{Name: "VP8", Clock: 90000, PT: 100}, {Name: "rtx", Clock: 90000, Line: "apt=100", PT: 101}}}}},
